@@ -523,8 +523,8 @@ def replay_driver1(meta, tr):
             if queue:
                 uncertain = True
             ntaken = 0
-        if len(queue) >= 2 and 0 < ntaken < len(queue):
-            uncertain = True
+        if len(queue) >= 2 and ntaken > 0:
+            uncertain = True     # Go's select chooses at random between the two command channels
         for _ in range(max(0, min(ntaken, len(queue)))):
             kindc, pp, chh = queue.pop(0)
             if kindc == "add":
@@ -746,3 +746,118 @@ def monitor_prio1_progress(sc, ir):
                 if v["consumed"].get(ch, 0) != v["nput"].get(ch, 0) and ch in v["closed"]:
                     fails.append(("terminated gracefully with items of channel %d unread" % ch, "prio1:%s:%d:%s" % (m["divider"], H, m["cfg"])))
     return fails[:3]
+
+
+# --------------------------------------------------------------------------- simplified disciplines (family 9)
+def gen_simple2_scenario(rng, tier):
+    ps = list(rng.choice([x for x in PRIOSETS if max(x) < 2 ** 63]))
+    kind = rng.randrange(2)
+    if ps == [1000, 2, 1] and kind == 1:
+        ps = [100, 2, 1]
+    hmin = min_handlers(ps, kind) or 1
+    H = rng.choice([hmin, hmin + 1, hmin + rng.randrange(0, 6), 2 * hmin])
+    allbuf = rng.random() < 0.7
+    cfg = [(p, True if allbuf else rng.random() < 0.5) for p in ps]
+    ops = []
+    nput = 0
+    open_ = set(ps)
+    for _ in range(rng.choice([10, 25, 40]) if tier == "quick" else rng.choice([30, 80])):
+        r = rng.random()
+        if r < 0.45 and open_:
+            p = rng.choice(sorted(open_))
+            for _ in range(rng.choice([1, 1, 2, H])):
+                ops.append((1, p, True))
+                nput += 1
+        elif r < 0.9:
+            for _ in range(rng.choice([1, 1, 2, 4])):
+                ops.append((4, rng.randrange(0, 8), True))
+        elif open_:
+            p = rng.choice(sorted(open_))
+            open_.discard(p)
+            ops.append((2, p, True))
+    for p in sorted(open_):
+        ops.append((2, p, True))
+    for _ in range(nput + 2):
+        ops.append((4, 0, True))
+    pb, os_ = [], []
+    for p, b in cfg:
+        pb += [p, 1 if b else 0]
+    for code, arg, stl in ops:
+        os_ += [code, arg, 1]
+    enc = [9, kind, H, FUEL, len(pb)] + pb + [len(os_)] + os_
+    meta = {"divider": ["Fair", "Rate"][kind], "H": H, "cfg": cfg, "ops": ops, "nput": nput}
+    return Scenario(enc, "simple-v2", meta, nontrivial=nput >= 2, version="v2")
+
+
+class SimpleTrace:
+    def __init__(self, vals, nops):
+        vals = list(vals)
+        self.noterm = "no-termination" in vals
+        if self.noterm:
+            vals.remove("no-termination")
+        self.extra = None
+        if "extra" in vals:
+            k = vals.index("extra")
+            self.extra = [int(x) for x in vals[k + 1:k + 4]]
+            vals = vals[:k]
+        v = [int(x) for x in vals]
+        self.error = None
+        self.ops = []
+        if v[0] != 0:
+            self.error = -v[0]
+            self.terminated = self.err = None
+            return
+        pos = 1
+        for _ in range(nops):
+            running, total, k = v[pos:pos + 3]
+            self.ops.append((running, total, tuple(v[pos + 3:pos + 3 + k])))
+            pos += 3 + k
+        self.terminated, self.err = v[pos], v[pos + 1]
+
+
+def simple2_generate():
+    def generate(rng, tier):
+        return [gen_simple2_scenario(rng, tier) for _ in range(100 if tier == "quick" else 2000)]
+    return generate
+
+
+def simple2_project(sc, vals):
+    tr = SimpleTrace(vals, len(sc.meta["ops"]))
+    if tr.error is not None:
+        return ["error", tr.error]
+    return ["handle", tr.ops, tr.terminated, tr.err]
+
+
+def monitor_simple2(kind):
+    def monitor(sc, ir):
+        if ir.verdict != "ok":
+            return [("implementation verdict %s %s" % (ir.verdict, ir.raw[-300:].replace("\n", " ")), None)]
+        m = sc.meta
+        tr = SimpleTrace(ir.vals, len(m["ops"]))
+        if tr.error is not None:
+            return []
+        H = m["H"]
+        key = "simple2:%s:%d:%s" % (m["divider"], H, m["cfg"])
+        fails = []
+        extra = tr.extra or [0, 0, 0]
+        if kind == "C01" and (extra[0] > H or any(o[0] > H for o in tr.ops)):
+            fails.append("%d concurrent Handle calls, HandlersQuantity is %d" % (max([extra[0]] + [o[0] for o in tr.ops]), H))
+        if kind == "C02":
+            if extra[1]:
+                fails.append("Handle was invoked more than once for %d item(s)" % extra[1])
+            handled = sorted(x for o in tr.ops for x in o[2])
+            if tr.terminated == 1 and handled != list(range(1, m["nput"] + 1)):
+                fails.append("Handle invoked for %d distinct items, %d were written" % (len(set(handled)), m["nput"]))
+        if kind in ("C07", "C19"):
+            if tr.terminated != 1 or tr.noterm:
+                fails.append("the discipline did not terminate after every input was closed and every Handle call returned")
+            if extra[2] > 0:
+                fails.append("terminated while %d Handle calls were still running" % extra[2])
+            if tr.err not in (0, -1):
+                fails.append("error reported in normal mode")
+        return [("%s [simple v2 %s H=%d inputs=%s ops=%d]" % (f, m["divider"], H, m["cfg"], len(m["ops"])), key) for f in fails[:3]]
+    return monitor
+
+
+SIMPLE2_RULE = ("v2 simplified discipline in a synctest bubble: Handle blocks until the driver lets the k-th running call return; operations put, "
+                "close, let-go, each followed by a settle; finale closes the inputs and lets every call return; non-trivial = at least two items")
